@@ -1,32 +1,92 @@
 /-
 C14 — Clients are isolated: one client's misbehaviour never disturbs another.
+The frame theorems below are about whole steps of the router model (one `Router::events(id, ev)`,
+one `Router::consume()`, one link-side push / drain). They say exactly what is preserved:
+a step on behalf of connection `id` never removes another connection and never changes any field
+of another connection except its *tracker* (the scheduler state: fresh data legitimately wakes
+parked subscribers via `track` / `reschedule`).
 -/
-import Proofs.Lemmas.Router.Frame
+import Proofs.Lemmas.Router.Rp1_Ack
 namespace C14
 open Router
-
-private theorem getConn_remove_ne (s : RState) (id j : Nat) (h : j ≠ id) :
-    ({ s with conns := s.conns.remove id } : RState).conns.get? j = s.conns.get? j := by
-  simp [Slab.remove, Slab.get?, List.getElem?_set, h.symm]
 
 /-- closing connection `id` (DISCONNECT packet, Disconnect event, protocol violation, bad ack,
     router-initiated close) leaves every other connection's state exactly as it was: its
     subscriptions, tracker, ack log, inflight window -/
 theorem close_touches_only_that_connection (s s' : RState) (id j : Nat) (r : Option String)
     (h : handleDisconnection s id r = .ok s') (hj : j ≠ id) :
-    getConn s' j = getConn s j := by
-  unfold handleDisconnection at h
-  split at h
-  · simp only [Except.ok.injEq] at h; subst h; rfl
-  · rename_i c hc
-    simp only [] at h
-    split at h
-    all_goals
-      simp only [Except.ok.injEq] at h
-      subst h
-      simp only [getConn]
-      first
-        | exact getConn_remove_ne _ id j hj
-        | (cases r <;> simp [Slab.remove, Slab.get?, List.getElem?_set, hj.symm, wakeLink, pushNotifs, setLink, RState.g])
+    getConn s' j = getConn s j := handleDisconnection_other h hj
+
+/-- an event on behalf of connection `id` — any event (DeviceData with any batch of packets,
+    protocol violations and bad acks included, Ready, Disconnect, PublishWill, Shadow, ticks), in
+    any state — removes no other connection and leaves every field of every other connection
+    untouched except its tracker -/
+theorem event_touches_only_that_connection {s s' : RState} {id j : Nat} {ev : Event} {out : Out} {c : Conn}
+    (h : step s (.event id ev) = .ok (s', out)) (hj : j ≠ id) (hc : getConn s j = some c) :
+    ∃ t, getConn s' j = some { c with tracker := t } := by
+  cases step_cases h with
+  | event _ _ h' => exact events_frame h' hj hc
+
+/-- `consume` removes no connection; it serves the first live connection of the ready queue and
+    leaves every field of every other connection untouched except its tracker; the served
+    connection keeps its identity (client id, link, clean flag) -/
+theorem consume_removes_nobody {s s' : RState} {out : Out} {j : Nat} {c : Conn}
+    (h : step s .consume = .ok (s', out)) (hc : getConn s j = some c) :
+    ∃ c', getConn s' j = some c' ∧ c'.clientId = c.clientId ∧ c'.link = c.link ∧ c'.clean = c.clean ∧
+      (polled s ≠ some j → ∃ t, c' = { c with tracker := t }) := by
+  cases step_cases h with
+  | consume b h' =>
+    obtain ⟨c', hc', hid, ht⟩ := consume_frame h' hc
+    exact ⟨c', hc', hid.1, hid.2.1, hid.2.2.1, ht⟩
+
+/-- link-side pushes and drains do not touch any connection -/
+theorem push_drain_touch_nobody {s s' : RState} {op : Op} {out : Out} (h : step s op = .ok (s', out))
+    (hop : (∃ l p, op = .push l p) ∨ ∃ l, op = .drain l) (j : Nat) : getConn s' j = getConn s j :=
+  step_push_drain_frame h hop j
+
+/-- a CONNECT, in a reachable state, removes at most the connection registered under the same
+    client id (session takeover); every other live connection is left exactly as it was -/
+theorem connect_removes_only_same_client_id {cfg : Config} {s s' : RState} {o : List Choice}
+    {spec : ConnectSpec} {out : Out} {j : Nat} {c : Conn} (hr : Reachable cfg s)
+    (h : step { s with oracle := o } (.connect spec) = .ok (s', out)) (hc : getConn s j = some c)
+    (hj : alookup spec.clientId s.connectionMap ≠ some j) : getConn s' j = some c := by
+  have ha : AdmInv { s with oracle := o } := (AdmInv.reachable hr).oracle o
+  cases step_cases h with
+  | connect _ h' => exact handleNewConnection_frame ha h' hc hj
+
+/-- `close_frame`, whole-step form: in a reachable state a step removes a live connection `j`
+    only if it is an event on behalf of `j` itself or a CONNECT whose client id is `j`'s -/
+theorem step_removes_only {cfg : Config} {s s' : RState} {o : List Choice} {op : Op} {out : Out} {j : Nat}
+    {c : Conn} (hr : Reachable cfg s) (h : step { s with oracle := o } op = .ok (s', out))
+    (hc : getConn s j = some c) (hgone : getConn s' j = none) :
+    (∃ ev, op = .event j ev) ∨ (∃ spec, op = .connect spec ∧ spec.clientId = c.clientId) := by
+  cases op with
+  | connect spec =>
+    refine .inr ⟨spec, rfl, ?_⟩
+    by_cases hj : alookup spec.clientId s.connectionMap = some j
+    · obtain ⟨c', hc', e⟩ := (AdmInv.reachable hr).map.1 _ _ hj
+      rw [hc] at hc'; simp only [Option.some.injEq] at hc'; subst hc'; exact e.symm
+    · rw [connect_removes_only_same_client_id hr h hc hj] at hgone; simp at hgone
+  | push l p =>
+    rw [push_drain_touch_nobody h (.inl ⟨l, p, rfl⟩) j] at hgone
+    rw [show getConn { s with oracle := o } j = getConn s j from rfl, hc] at hgone; simp at hgone
+  | event id ev =>
+    by_cases hj : j = id
+    · subst hj; exact .inl ⟨ev, rfl⟩
+    · obtain ⟨t, ht⟩ := event_touches_only_that_connection h hj (show getConn { s with oracle := o } j = some c from hc)
+      rw [ht] at hgone; simp at hgone
+  | consume =>
+    obtain ⟨c', hc', _⟩ := consume_removes_nobody h (show getConn { s with oracle := o } j = some c from hc)
+    rw [hc'] at hgone; simp at hgone
+  | drain l =>
+    rw [push_drain_touch_nobody h (.inr ⟨l, rfl⟩) j] at hgone
+    rw [show getConn { s with oracle := o } j = getConn s j from rfl, hc] at hgone; simp at hgone
+
+/-- non-vacuity: closing connection 0 of a two-connection state leaves connection 1 in place -/
+example : ∃ s s', Reachable ⟨2, 1024, 2, 10, .roundRobin⟩ s ∧ step s (.event 0 .disconnect) = .ok (s', .ok) ∧
+    (getConn s 0).isSome = true ∧ (getConn s' 0).isSome = false ∧ (getConn s' 1).isSome = true :=
+  ⟨_, _, ⟨[(.connect { link := 0, clientId := "a", clean := true, dynamicFilters := false, aliasMax := 0, will := none }, []),
+           (.connect { link := 1, clientId := "b", clean := true, dynamicFilters := false, aliasMax := 0, will := none }, [])], rfl⟩,
+    rfl, rfl, rfl, rfl⟩
 
 end C14
